@@ -25,6 +25,8 @@ const OPS: &[&str] = &[
     "SET k h NX GET", "SET k i XX GET", "SET k m KEEPTTL", "SET k p XX EX 100",
     // the remaining commands of the replicated set (every command record_mutation_post_execute knows is in the alphabet)
     "DECR k", "DECRBY k 2",
+    // an expiry below one second (whatever materialises a remote value must not round it to "no time at all")
+    "SET k q PX 500",
 ];
 const MAX_DELTAS: usize = 4;
 
@@ -255,7 +257,7 @@ impl World {
                 }
                 other => other.to_string(),
             };
-            let ttl = resp::show(&self.nodes[n].execute(resp::parse(&resp::argv(&["TTL", key])).unwrap()).await.0);
+            let ttl = resp::show(&self.nodes[n].execute(resp::parse(&resp::argv(&["PTTL", key])).unwrap()).await.0);
             out.insert(key.to_string(), format!("{v} ttl{ttl}"));
         }
         out
@@ -270,7 +272,7 @@ impl World {
             let cv = client_view(v);
             if cv != "absent" {
                 let ttl = match v.expiry_ms {
-                    Some(ms) => format!(":{}", ms / 1000),
+                    Some(ms) => format!(":{}", ms),
                     None => ":-1".to_string(),
                 };
                 views.insert(k.clone(), format!("{cv} ttl{ttl}"));
